@@ -119,7 +119,7 @@ def main():
         "setup_cmd": "./vcheck setup",
         "hooks": {
             "guard": "verif",
-            "enable": "go1.26 test -tags verif -overlay work/overlay.json — export files under /verif/hooks/<pkg>/ (//go:build verif) are ADDED to the library packages through the build overlay, and for engine E3 the overlay additionally substitutes instrumented copies generated by cmd/vinstr from the current /repo tree; /repo itself carries no hook code",
+            "enable": "go1.26 test -tags verif -overlay work/overlay.json — export files under /verif/hooks/<pkg>/ (//go:build verif; those that name unexported library code carry an opt-out tag nohook_<x> that vcheck applies, with a HOOK-UNAVAILABLE line and a note in the evidence, when a changed tree no longer compiles against them) are ADDED to the library packages through the build overlay, and for engine E3 the overlay additionally substitutes instrumented copies generated by cmd/vinstr from the current /repo tree; /repo itself carries no hook code",
             "baseline_off_cmd": "cd /repo && GOFLAGS=-mod=mod GOPROXY=off GOTOOLCHAIN=local go1.26 test -vet=off -count=1 -timeout 25m ./...",
             "source_commits": [],
             "add_only": True,
